@@ -50,4 +50,11 @@ def step (line : String) : String :=
     | _, _ => "bad-op"
   | _ => "bad-op"
 
-def main : IO Unit := lineLoop step
+/-- stateless requests first; everything else goes to the stateful toy sender/receiver of PV/Model/PacketIO.lean
+(`reset`, `cfgout`, `seqout`, `kexout`, `zout`, `send <payloadhex> <rndhex>`, …) so that LONG histories through one
+sender can be compared packet by packet -/
+def stepSt (st : DSt) (line : String) : DSt × String :=
+  let r := step line
+  if r != "bad-op" then (st, r) else driverStep st line
+
+def main : IO Unit := lineLoopSt ({} : DSt) stepSt
